@@ -184,175 +184,53 @@ Qed.
 End InlineInv.
 
 (** * source items of the scope, as the source AST of Foreign.v *)
+Fixpoint ato_x (a : aitem) : xitem :=
+  match a with
+  | AText s => XText s
+  | AVar _ n _ _ => XVar n
+  | AComp _ n _ kids _ _ _ => XComp n (map ato_x kids)
+  | ARef ns path => XRef (option_map seg_name ns) (map seg_name path) []
+  end.
+Definition xarg_of (a : rarg) : xarg := match a with RAStr its => XAStr (map ato_x its) | RALit l => XALit l end.
 Fixpoint to_x (i : ritem) : xitem :=
   match i with
   | RText s => XText s
   | RVar _ n _ _ => XVar n
   | RComp _ n _ kids _ _ _ => XComp n (map to_x kids)
   | RRef ns path => XRef (option_map seg_name ns) (map seg_name path) []
+  | RRefA ns path args =>
+      XRef (option_map seg_name ns) (map seg_name path) (map (fun ka => (fst ka, xarg_of (snd ka))) args)
   end.
-(** no formatter anywhere *)
+(** no formatter anywhere (the source AST [xitem] has none) *)
+Fixpoint aplain (a : aitem) : bool :=
+  match a with
+  | AVar _ _ _ (Some _) => false
+  | AComp _ _ _ kids _ _ _ => forallb aplain kids
+  | _ => true
+  end.
+Definition rarg_plain (a : rarg) : bool := match a with RAStr its => forallb aplain its | RALit _ => true end.
 Fixpoint plain (i : ritem) : bool :=
   match i with
   | RText _ | RRef _ _ => true
   | RVar _ _ _ fm => match fm with None => true | Some _ => false end
   | RComp _ _ _ kids _ _ _ => forallb plain kids
+  | RRefA _ _ args => forallb (fun ka => rarg_plain (snd ka)) args
   end.
+
+Lemma to_x_a2r : forall a, to_x (a2r a) = ato_x a.
+Proof.
+  apply aitem_ind2; try reflexivity.
+  intros w1 n w2 kids a b c IH. cbn [a2r to_x ato_x]. f_equal. rewrite map_map.
+  induction IH as [|k r Hk Hr IHr]; [reflexivity|]. cbn [map]. rewrite Hk, IHr. reflexivity.
+Qed.
+Lemma plain_a2r : forall a, plain (a2r a) = aplain a.
+Proof.
+  apply aitem_ind2; try reflexivity.
+  intros w1 n w2 kids a b c IH. cbn [a2r plain aplain].
+    induction IH as [|k r Hk Hr IHr]; [reflexivity|]. cbn [map forallb]. rewrite Hk, IHr. reflexivity.
+Qed.
 
 Lemma plain_split a y b : forallb plain (a ++ y :: b) = true -> forallb plain a = true /\ plain y = true /\ forallb plain b = true.
 Proof.
   rewrite forallb_app. cbn [forallb]. intros H. apply andb_true_iff in H as [H1 H2]. apply andb_true_iff in H2 as [H2 H3]. auto.
 Qed.
-
-Section Sound.
-Variable idc : str -> idres.
-Variable json_args : str -> res (list (str * jarg)).
-Variable vals : values.
-Variable dflt : str.
-Variable inherits : list (str * str).
-(** the sources written in the project: [Some None] = null, [None] = absent or a group *)
-Variable src_of : str -> keypath -> option (option (list ritem)).
-
-Definition xsrc (L : str) (p : keypath) : option (option (list xitem)) :=
-  match src_of L p with
-  | Some (Some its) => Some (Some (map to_x its))
-  | Some None => Some None
-  | None => None
-  end.
-
-(** the project's values are the parses of its printed sources *)
-Definition proj_rel : Prop := forall L p,
-  match src_of L p with
-  | Some (Some items) =>
-      ritems_wfb idc items = true /\ forallb plain items = true /\
-      exists v, parse_top idc json_args true (rprint_list items) = Ok v /\ get_value_at vals L p = Some (NVal v)
-  | Some None => get_value_at vals L p = Some NDefault
-  | None => get_value_at vals L p = None \/ exists sub, get_value_at vals L p = Some (NSub sub)
-  end.
-
-Hypothesis HP : proj_rel.
-
-Lemma gv_val L p T : get_value_at vals L p = Some (NVal T) ->
-  exists items, src_of L p = Some (Some items) /\ ritems_wfb idc items = true /\ forallb plain items = true /\ Rep T items.
-Proof.
-  intros H. pose proof (HP L p) as Hp. destruct (src_of L p) as [[items|]|].
-  - destruct Hp as (W & Pl & v & Ev & Eg). rewrite Eg in H. inversion H; subst.
-    destruct (roundtrip_ref_top idc json_args items W) as (v' & Ev' & R). rewrite Ev in Ev'. inversion Ev'; subst.
-    exists items. auto.
-  - rewrite Hp in H. discriminate.
-  - destruct Hp as [Hp|[sub Hp]]; rewrite Hp in H; discriminate.
-Qed.
-Lemma gv_default L p : get_value_at vals L p = Some NDefault -> src_of L p = Some None.
-Proof.
-  intros H. pose proof (HP L p) as Hp. destruct (src_of L p) as [[items|]|]; [| reflexivity |].
-  - destruct Hp as (_ & _ & v & _ & Eg). rewrite Eg in H. discriminate.
-  - destruct Hp as [Hp|[sub Hp]]; rewrite Hp in H; discriminate.
-Qed.
-Lemma gv_absent L p : (get_value_at vals L p = None \/ exists sub, get_value_at vals L p = Some (NSub sub)) -> src_of L p = None.
-Proof.
-  intros H. pose proof (HP L p) as Hp. destruct (src_of L p) as [[items|]|]; [| | reflexivity].
-  - destruct Hp as (_ & _ & v & _ & Eg). rewrite Eg in H. destruct H as [H|[sub H]]; discriminate.
-  - rewrite Hp in H. destruct H as [H|[sub H]]; discriminate.
-Qed.
-
-(** the locale chosen by the resolver's walk is the one the source semantics designates *)
-Lemma walk_effective target : forall fuel visited cur T,
-  get_value_at vals (walk vals dflt inherits fuel visited cur target) target = Some (NVal T) ->
-  effective xsrc dflt inherits fuel visited cur target = walk vals dflt inherits fuel visited cur target.
-Proof.
-  induction fuel as [|f IH]; intros visited cur T H; cbn [Foreign.walk effective] in *; [reflexivity|].
-  destruct (assoc cur inherits) as [next|]; [|reflexivity].
-  destruct (mem_str next visited); [reflexivity|].
-  destruct (get_value_at vals next target) as [[T'| |sub]|] eqn:E.
-  - destruct (gv_val _ _ _ E) as (items & Es & _). unfold xsrc. rewrite Es. reflexivity.
-  - unfold xsrc at 1. rewrite (gv_default _ _ E). eapply IH; exact H.
-  - rewrite E in H. discriminate.
-  - unfold xsrc at 1. rewrite (gv_absent next target (or_introl E)). eapply IH; exact H.
-Qed.
-
-Lemma xseq_texts one l : (forall s, one (XText s) = Some [PcText s]) -> forallb is_rtext l = true ->
-  xseq one (map to_x l) = Some (map PcText (map rprint l)).
-Proof.
-  intros Ho. induction l as [|x r IH]; intros H; [reflexivity|].
-  cbn [forallb] in H. apply andb_true_iff in H as [Hx Hr]. destruct x; try discriminate.
-  cbn [map to_x rprint]. rewrite xseq_cons, Ho, IH by exact Hr. reflexivity.
-Qed.
-
-Notation xden := (xdenote xsrc dflt inherits).
-Notation inl := (inline vals dflt inherits).
-
-(** (iv) inline on the parse of a printed source = xdenote on the source *)
-Theorem inline_xdenote : forall f L v items d,
-  Rep v items -> forallb plain items = true -> inl f L v = Some d ->
-  exists d', xden f L (map to_x items) = Some d' /\ pc_norm d' = pc_norm d.
-Proof.
-  induction f as [f IH] using lt_wf_ind. intros L v items d HR.
-  destruct f as [|f]; [intros _ H; discriminate|].
-  assert (IHm : forall L v items d, Rep v items -> forallb plain items = true -> inl f L v = Some d ->
-                exists d', xseq (xone xsrc dflt inherits (xden f) L) (map to_x items) = Some d' /\ pc_norm d' = pc_norm d).
-  { intros L0 v0 items0 d0 R0 P0 I0. destruct (IH f (Nat.lt_succ_diag_r f) _ _ _ _ R0 P0 I0) as (d' & E' & N').
-    exists d'. split; [|exact N']. rewrite <- xdenote_S. apply (xdenote_mono_S xsrc dflt inherits f). exact E'. }
-  destruct HR as [l Ht|vb va pre w1 n w2 fm rest Rb Ra|vb vm va pre w1 n w2 kids a b c rest Rb Rm Ra|vb va pre ns path rest Rb Ra];
-    intros Hpl Hin.
-  - (* a run of text *)
-    apply inline_lit_inv in Hin. subst d. rewrite xdenote_S.
-    rewrite (xseq_texts _ l (fun s => eq_refl) Ht). eexists. split; [reflexivity|].
-    cbn [lit_display]. apply pc_norm_texts.
-  - (* variable *)
-    destruct (plain_split _ _ _ Hpl) as (Pb & Py & Pa).
-    destruct (inline_bloc3_inv _ _ _ _ _ _ _ _ _ Hin) as (db & dx & da & Eb & Ex & Ea & ->).
-    apply inline_var_inv in Ex. subst dx.
-    destruct (IHm _ _ _ _ Rb Pb Eb) as (db' & Eb' & Nb). destruct (IHm _ _ _ _ Ra Pa Ea) as (da' & Ea' & Na).
-    rewrite xdenote_S, map_app, xseq_app. cbn [map]. rewrite xseq_cons, Eb', Ea'.
-    cbn [to_x xone]. eexists. split; [reflexivity|].
-    cbn [plain] in Py. destruct fm; [discriminate|]. cbn [fmt_of].
-    apply pc_norm_congr; [exact Nb|]. apply pc_norm_congr; [reflexivity | exact Na].
-  - (* component *)
-    destruct (plain_split _ _ _ Hpl) as (Pb & Py & Pa). cbn [plain] in Py.
-    destruct (inline_bloc3_inv _ _ _ _ _ _ _ _ _ Hin) as (db & dx & da & Eb & Ex & Ea & ->).
-    destruct (inline_comp_inv _ _ _ _ _ _ _ _ Ex) as (f0 & dm & -> & Em & ->).
-    destruct (IHm _ _ _ _ Rb Pb Eb) as (db' & Eb' & Nb). destruct (IHm _ _ _ _ Ra Pa Ea) as (da' & Ea' & Na).
-    destruct (IH f0 ltac:(lia) _ _ _ _ Rm Py Em) as (dm' & Em' & Nm).
-    apply (xdenote_mono_S xsrc dflt inherits f0) in Em'.
-    rewrite xdenote_S, map_app, xseq_app. cbn [map]. rewrite xseq_cons, Eb', Ea'.
-    cbn [to_x xone]. rewrite Em'. eexists. split; [reflexivity|].
-    apply pc_norm_congr; [exact Nb|]. apply pc_norm_congr; [rewrite Nm; reflexivity | exact Na].
-  - (* reference *)
-    destruct (plain_split _ _ _ Hpl) as (Pb & _ & Pa).
-    destruct (inline_bloc3_inv _ _ _ _ _ _ _ _ _ Hin) as (db & dx & da & Eb & Ex & Ea & ->).
-    destruct (inline_foreign_inv _ _ _ _ _ _ _ _ _ Ex) as (f0 & -> & El).
-    destruct (IHm _ _ _ _ Rb Pb Eb) as (db' & Eb' & Nb). destruct (IHm _ _ _ _ Ra Pa Ea) as (da' & Ea' & Na).
-    destruct (ilook2_inv _ _ _ _ _ _ _ El) as (L' & T & body & Eg & Er & -> & HL).
-    destruct (gv_val _ _ _ Eg) as (items' & Es & W' & P' & R').
-    destruct (IH f0 ltac:(lia) _ _ _ _ R' P' Er) as (body' & Ebody & Nbody).
-    apply (xdenote_mono_S xsrc dflt inherits f0) in Ebody.
-    set (tgt := (option_map seg_name ns, map seg_name path)) in *.
-    assert (EL : match xsrc L tgt with
-                 | Some (Some _) => L
-                 | _ => effective xsrc dflt inherits (S (length inherits)) [L] L tgt
-                 end = L').
-    { destruct HL as [->|[E0 ->]].
-      - unfold xsrc at 1. rewrite Es. reflexivity.
-      - unfold xsrc at 1. rewrite (gv_default _ _ E0). eapply walk_effective. exact Eg. }
-    rewrite xdenote_S, map_app, xseq_app. cbn [map]. rewrite xseq_cons, Eb', Ea'.
-    cbn [to_x xone]. fold tgt. cbv zeta. rewrite EL. unfold xsrc at 1. rewrite Es. rewrite Ebody.
-    cbn [xargs fold_right]. eexists. split; [reflexivity|].
-    apply pc_norm_congr; [exact Nb|]. apply pc_norm_congr; [rewrite Nbody; reflexivity | exact Na].
-Qed.
-
-(** * end to end: the final value of a key denotes the source-level inlining semantics of its source *)
-Theorem final_value_xdenote ns L path items v r' :
-  src_of L (ns, path) = Some (Some items) -> get_value_at vals L (ns, path) = Some (NVal v) ->
-  final_value vals dflt inherits ns L path (NVal v) = Ok (Some r') ->
-  (exists d, xden 200 L (map to_x items) = Some d /\ pieces r' = pc_norm d) /\
-  (forall fuel d, xden fuel L (map to_x items) = Some d -> pieces r' = pc_norm d).
-Proof.
-  intros Es Eg Hf.
-  destruct (gv_val _ _ _ Eg) as (items' & Es' & W & Pl & R). rewrite Es in Es'. inversion Es'; subst items'.
-  destruct (final_value_inline _ _ _ _ _ _ _ _ Hf) as (di & Ei & Pi).
-  destruct (inline_xdenote _ _ _ _ _ R Pl Ei) as (d' & Ed' & Nd').
-  assert (P' : pieces r' = pc_norm d') by (rewrite Pi, Nd'; reflexivity).
-  split; [exists d'; split; [exact Ed' | exact P']|].
-  intros fuel d Hd. rewrite (xdenote_fuel_irrelevant _ _ _ _ _ _ _ _ _ Hd Ed'). exact P'.
-Qed.
-End Sound.
